@@ -1,7 +1,7 @@
 #!/usr/bin/env python3
 """Run every seeded change against the check of the property it breaks; write seeded/<id>/meta.json and seeded/MATRIX.md.
 Each change is applied to /repo with `git apply`, checked, and undone with `git checkout -- .` straight afterwards."""
-import json, os, re, subprocess, sys
+import json, os, re, subprocess, sys, time
 HERE = os.path.dirname(os.path.dirname(os.path.abspath(__file__)))
 NEEDS = {
  'C01_1': 'two guard rounds in one processing step: round 1 accepted with a follow-up request from a guard, round 2 cancelled; then the staged destination is wiped and an unrequested state is entered while activeStateId() is invalid',
@@ -107,11 +107,30 @@ NEEDS = {
  'C18_6': 'BitArrayT::set() with CAPACITY a multiple of 8 writes one byte past the array (8, 16, ... states with plans)',
  'C18_7': 'StreamBufferT of BIT_CAPACITY % 8 == 1 (128..255 states) is one byte short',
  'C18_8': 'contain() for 249..255 bits wraps to 0 units: the task bit arrays have no storage',
+ 'C03_6': 'guard vetoes and redirects after an accepted request: the fall-back is skipped, the vetoed state stays staged (limit reached / replacement filtered as duplicate)',
+ 'C03_7': 'activation: redirect accepted, second redirect vetoed: falls back to state 0 instead of the accepted redirect',
+ 'C04_6': 'SubstitutionLimitN<255>: loop counter 1..LIMIT in an 8-bit type never terminates',
+ 'C04_7': 'activation: first redirect vetoed with nothing accepted: INVALID staged, no active state (same patch as C01_5)',
+ 'C04_8': 'Config::SubstitutionLimitN<2>::TaskCapacityN<9>: arguments of the TaskCapacityN alias swapped',
+ 'C06_4': 'activation guards: GuardControl built with pending / current swapped (same patch as C07_3)',
+ 'C06_5': 'value context: the const control holds a copy of the core; query() sees a copy of the context',
+ 'C09_5': 'no plan yet, a state reports failure and leaves, a plan is created: the stale region status delivers planFailed() in a later cycle',
+ 'C09_6': 'planSucceeded() of a head that queues a task: the plan is cleared before instead of after the callback',
+ 'C13_5': 'read<W>() of a field inside one byte that starts mid-byte: mask too wide by the start offset',
+ 'C13_6': 'write stream opened at a non-zero cursor on a used buffer: buffer not cleared',
+ 'C13_7': 'bitWidth(16..31) returns 4',
+ 'C14_2': 'first redirect of an activation vetoed: INVALID staged, dispatch reaches the last declared state (same family as C01_5)',
+ 'C15_5': 'state with >= 2 injections: entry guards of injections 2..k never consulted',
+ 'C17_4': 'machine copied while the plan holds a task with payload: TaskT copy constructor drops payloadSet',
+ 'C17_5': 'machine copied after an earlier task was removed: TaskListT copy loops to _count instead of _last',
+ 'C20_6': 'DynamicArrayT::emplace(const&...) does not advance the count',
+ 'C20_7': 'contain() wraps for 249..255 bits: UNIT_COUNT 0 (same patch as C18_8)',
 }
 def sh(cmd, **kw):
     return subprocess.run(cmd, shell=True, stdout=subprocess.PIPE, stderr=subprocess.STDOUT, text=True, **kw)
-rows = []
 only = sys.argv[1:]
+vcommit = sh('git -C %s rev-parse --short HEAD' % HERE).stdout.strip()
+rcommit = sh('git -C /repo rev-parse --short HEAD').stdout.strip()
 for d in sorted(os.listdir(os.path.join(HERE, 'seeded'))):
     sd = os.path.join(HERE, 'seeded', d)
     if not os.path.isdir(sd) or (only and d not in only):
@@ -121,7 +140,7 @@ for d in sorted(os.listdir(os.path.join(HERE, 'seeded'))):
         print('/repo dirty, abort'); sys.exit(9)
     a = sh('git -C /repo apply %s/patch.diff' % sd)
     if a.returncode != 0:
-        rows.append((d, prop, 'patch does not apply', '', '')); continue
+        print((d, prop, 'patch does not apply')); continue
     try:
         r = sh('cd %s && python3 check.py %s --tier quick' % (HERE, prop))
     finally:
@@ -134,12 +153,26 @@ for d in sorted(os.listdir(os.path.join(HERE, 'seeded'))):
     conf = open(os.path.join(sd, 'confirm.log')).read().strip().splitlines()[-1] if os.path.exists(os.path.join(sd, 'confirm.log')) else ''
     meta = {'property': prop, 'breaks': 'see notes.md (written by the sub-agent that seeded the change)', 'needs_to_manifest': NEEDS.get(d, ''),
             'confirmed': conf, 'what_was_run': 'tools/confirm_seed.sh (suite with the change, demo with / without the change in a scratch worktree); tools/seed_matrix.py (git apply, check.py %s --tier quick, git checkout -- .)' % prop,
+            'run_at': {'verif_commit': vcommit, 'repo_commit': rcommit, 'when': time.strftime('%Y-%m-%d %H:%M UTC', time.gmtime())},
             'check_result': {'exit': r.returncode, 'violation_line': viol[0] if viol else None, 'failed_obligations': ['%s %s' % f for f in failed][:12], 'replayed_on_real_code': replayed}}
     json.dump(meta, open(os.path.join(sd, 'meta.json'), 'w'), indent=1)
-    rows.append((d, prop, 'DETECTED' if detected else ('exit %s' % r.returncode), 'native replay' if replayed else ('no-failing-input-found' if detected else ''), '; '.join('%s %s' % f for f in failed[:3])))
-    print(rows[-1])
-if not only:
-    with open(os.path.join(HERE, 'seeded', 'MATRIX.md'), 'w') as f:
-        f.write('| seeded change | property | quick check | replay | failed obligations (first 3) |\n|---|---|---|---|---|\n')
-        for r in rows:
-            f.write('| %s | %s | %s | %s | %s |\n' % r)
+    print((d, prop, 'DETECTED' if detected else ('exit %s' % r.returncode), 'native replay' if replayed else ('no-failing-input-found' if detected else '')))
+    sys.stdout.flush()
+# MATRIX.md: always rebuilt from every meta.json (each row names the /verif commit whose check produced it)
+rows = []
+for d in sorted(os.listdir(os.path.join(HERE, 'seeded'))):
+    mp = os.path.join(HERE, 'seeded', d, 'meta.json')
+    if not os.path.exists(mp):
+        if os.path.isdir(os.path.join(HERE, 'seeded', d)):
+            rows.append((d, d.split('_')[0], 'not run yet', '', '', ''))
+        continue
+    m = json.load(open(mp)); c = m['check_result']
+    det = bool(c.get('violation_line'))
+    rows.append((d, m['property'], 'DETECTED' if det else 'exit %s' % c.get('exit'), ('native replay' if c.get('replayed_on_real_code') else 'no-failing-input-found') if det else '',
+                 '; '.join(c.get('failed_obligations', [])[:2]), (m.get('run_at') or {}).get('verif_commit', 'earlier')))
+with open(os.path.join(HERE, 'seeded', 'MATRIX.md'), 'w') as f:
+    f.write('| seeded change | property | quick check | replay | failed obligations (first 2) | /verif commit of the run |\n|---|---|---|---|---|---|\n')
+    for r in rows:
+        f.write('| %s | %s | %s | %s | %s | %s |\n' % r)
+    n = sum(1 for r in rows if r[2] == 'DETECTED')
+    f.write('\n%d of %d detected; %d with a native reproduction.\n' % (n, len(rows), sum(1 for r in rows if r[3] == 'native replay')))
